@@ -12,7 +12,7 @@
    Data dependent calls (the empty-folder purge after a batch delete, the directories a
    listing descends into) are given as candidate sets (`candidates`).
    Trigger sets: `req_climbs` / `req_enters_uploads` (a lexical walk, `escapes`, over the
-   strings a route builds its paths from), `bad_bucket`, `req_noslash`; the first,
+   strings a route builds its paths from), `bad_bucket`; the first,
    purely syntactic ones (`req_dotdot`, `req_uploads_seg`) are kept for the corollaries
    in proof/S3PathsCompat.v.
    Executable definitions only; proofs are in proof/S3PathsProofs.v. *)
@@ -479,8 +479,9 @@ Definition calls (fx : fixture) (q : req) : list ccall :=
       within b (GLookup buckets_path b ::
                 (if is_dir_at fx (join_path buckets_path b) then [] else [GCreate buckets_path b true]))
   | RPostPolicy =>
-      (* uploadUrl = BucketsPath + "/" + bucket + urlPathEscape(key): NO "/" in between *)
-      within b (http_calls MPut (bucket_dir b ++ q_object q))
+      (* repaired (fix: POST policy upload must keep the bucket and the form key apart):
+         uploadUrl = BucketsPath + "/" + bucket + "/" + urlPathEscape(TrimPrefix(key, "/")) *)
+      within b (http_calls MPut (bucket_dir b ++ norm_object (q_object q)))
   end.
 
 (* the data dependent calls a request may make besides `calls` *)
@@ -643,9 +644,3 @@ Definition req_climbs (q : req) : bool := existsb climbs (rels q) || src_bad q.
 Definition req_enters_uploads (q : req) : bool :=
   object_route (q_route q) && (existsb enters_uploads (rels q) || src_bad q).
 
-(* finding 3: a POST upload whose form key does not begin with "/" *)
-Definition req_noslash (q : req) : bool :=
-  match q_route q with
-  | RPostPolicy => negb (q_object q =? "") && negb (starts_with_slash (q_object q))
-  | _ => false
-  end.
